@@ -71,7 +71,9 @@ def cases(tier: str, base_seed: int):  # noqa: ANN201
                "knobs": {"lat_jit": rng.choice([0.0, 0.02, 0.1]), "dup": rng.choice([0.0, 0.0, 0.05]),
                          "timer_jitter": rng.choice([0.0, 0.001])},
                "attacks": [{"kind": rng.choice(ATTACKS), "pick": rng.random()} for _ in range(rng.choice([2, 5, 12]))],
-               "join_policy": rng.choice([None, None, "accept_all"]), "max_traffic": rng.choice([None, None, 150000])}
+               "join_policy": rng.choice([None, None, "accept_all"]), "max_traffic": rng.choice([None, None, 150000]),
+               # tuning knobs of the library, varied per run
+               "settings": rng.choice([{}, {}, {"remove_tunnel_delay": rng.choice([0, 1]), "unstable_timeout": rng.choice([5, 60])}])}
 
 
 def execute(case: dict) -> dict:  # noqa: C901, PLR0915
@@ -85,7 +87,7 @@ def execute(case: dict) -> dict:  # noqa: C901, PLR0915
     n = n_orig + n_pool + 1                       # + adversary (last node)
     exits = tuple(range(n_orig + n_pool - 2, n_orig + n_pool))
     tw = TunnelWorld(c, n=n, exits=exits, flags={n - 1: {8}},   # the adversary is no relay candidate
-                     settings={"max_traffic": int(case["max_traffic"])} if case.get("max_traffic") else None)
+                     settings={**({"max_traffic": int(case["max_traffic"])} if case.get("max_traffic") else {}), **(case.get("settings") or {})} or None)
     circuits: list = []     # dicts: origin node, circuit, server, markers
     destroys_seen: list = []
 
